@@ -303,6 +303,8 @@ def main(pid, tier, repo=None):
     ctx = Ctx(pid, tier, configs=("workspace",), repo=repo)
     rule_slot(ctx)
     rule_slotpred(ctx)
+    from . import enummap
+    enummap.run(ctx, pid)
     ctx.not_decided("the blend arithmetic, clamping, alpha handling, crop intersection, resets_canvas / save_before_ct, patches (value-level)")
     return ctx.finish(
         "Reference-slot bookkeeping only: which slot a frame reads and which it is saved to. Ordering and control dependence of the "
